@@ -21,6 +21,9 @@ def tasks(tier, seed):
     for d in range(1, dmax + 1):
         for part in partitions(range(d)):
             add("group_linear", (d, 2 if d < 4 else 1, part), f"group_linear[d={d},{part}]")
+    # a group is a set of features: its indices may be listed in any order (unordered, interleaved groups)
+    add("group_linear", (4, 1, [[0, 3, 2], [1]]), "group_linear[d=4,[[0,3,2],[1]]]")
+    add("group_linear", (4, 1, [[2, 0], [3, 1]]), "group_linear[d=4,[[2,0],[3,1]]]")
     add("group_linear", (3, 2, [[0, 2], [1]], 0), "group_linear[d=3,zero group]")
     add("group_linear", (2, 1, [[0, 1]], 0), "group_linear[d=2,zero group]")
     add("group_linear", (3, 2, [[0, 2], [1]], 0, True), "group_linear[d=3,zero group,alpha0]")
@@ -46,6 +49,7 @@ def extra(led, tier, seed):
     led.extend(prox_native.zero_case())
     from contracts import dtype_native, sparse_sel
     led.extend(dtype_native.prox_dtypes(seed))
+    led.extend(prox_native.unordered_groups(seed))
     # the group structure handed to the operators: check_groups completes a partial list with singletons and rejects non-partitions
     led.extend(sparse_sel.check_groups_exhaustive(3))
     # lemmas L4 / L5, machine-checked for every dimension (Lean 4 + Mathlib), and their link to the discharged clauses
